@@ -78,7 +78,19 @@ def dispatch(eng, func, args, kwargs):
                 eng.writes.append({"leaf": eng.owned[eng.key(tgt)], "site": str(func), "where": eng.where(),
                                    "changed": [("rng", "rng")], "n_changed": tgt.numel()})
         if tgt.dtype in FLOAT_DT:
-            eng.fresh_symbolic(tgt, "rng_" + name, record=eng.rng_draws)
+            eng.rng_shapes.append(tuple(tgt.shape))
+            if eng.rng_queue:
+                # the harness prescribes this draw (a symbolic leaf or a unit vector): bind it instead of fresh variables
+                inj = eng.rng_queue.pop(0)
+                if inj.numel() != tgt.numel():
+                    raise UnsupportedOp(f"injected noise of shape {tuple(inj.shape)} for a draw of shape {tuple(tgt.shape)}")
+                cells = np.array(eng.sym(inj), dtype=object, copy=True).reshape(tuple(tgt.shape))
+                with _disable_current_modes():
+                    tgt.detach().copy_(inj.detach().reshape(tgt.shape).to(tgt.dtype))
+                eng.alloc(tgt)
+                eng.view(tgt)[...] = cells
+            else:
+                eng.fresh_symbolic(tgt, "rng_" + name, record=eng.rng_draws)
             count(eng, func)
         return out
 
